@@ -306,10 +306,8 @@ def eval_replace(case):
     if got != exp:
         viols.append({'kind': 'replace-disagrees', 'base': kw, 'changes': list(chs), 'got': got[1][:4] if got[0] == 'ok' else got,
                       'expected': exp[1][:4] if exp[0] == 'ok' else exp})
-    elif got[0] == 'ok':
-        want_cache = bool(newkw.get('cache', False))
-        if (r2._cache is not None) != want_cache:
-            viols.append({'kind': 'replace-cache-flag', 'base': kw, 'changes': list(chs)})
+    # (whether the copy caches is not observable through any statement - cached and uncached rules answer alike -
+    # so the private memo of the copy is not looked at)
     if list(itertools.islice(r, 60)) != before:
         viols.append({'kind': 'replace-mutated-original', 'base': kw, 'changes': list(chs)})
     return Res(viols=viols, trans=2)
